@@ -213,7 +213,8 @@ int cp_mklhs_ver(const g1_t sig, const bn_t m, const bn_t mu[],
 		g2_get_gen(g2);
 		pc_map(e, sig, g2);
 		pc_map_sim(c, g, pk, slen);
-		if (gt_cmp(c, e) == RLC_EQ) {
+		/* The identity is not a signature (it verifies under identity keys). */
+		if (gt_cmp(c, e) == RLC_EQ && !g1_is_infty(sig)) {
 			ver2 = 1;
 		}
 	}
@@ -349,7 +350,8 @@ int cp_mklhs_onv(const g1_t sig, const bn_t m, const bn_t mu[],
 		g2_get_gen(g2);
 		pc_map(e, sig, g2);
 		pc_map_sim(c, g, pk, slen);
-		if (gt_cmp(c, e) == RLC_EQ) {
+		/* The identity is not a signature (it verifies under identity keys). */
+		if (gt_cmp(c, e) == RLC_EQ && !g1_is_infty(sig)) {
 			ver2 = 1;
 		}
 	}
